@@ -15,7 +15,7 @@ func init() {
 	register(&Property{
 		ID:          "C02",
 		NeedSSA:     true,
-		Decided:     "Structural necessary conditions: (sink) the destination io.Writer is written only inside the three methods of the offset-tracking wrapper, each of which adds the byte count to the offset on every path, and the bufio layer is only Reset/Flushed elsewhere, so every byte that reaches the sink is counted in the offsets the footer records; (offsets) the offset and length fields of column chunks, row groups and page locations derive from that running offset (or differences of it), and the page locations of a chunk are re-based by the data page offset in both the encoded and the copied branch; (header) the fields of each page header come from the matching accessor of the page or buffer (NumValues, NumNulls, NumRows, Encoding(), len(definitions), len(repetitions)), the uncompressed size is taken after the v1 levels are prepended and before compression, the compressed size and CRC after it, all before the header is encoded; (deferred) a buffer that holds a deferred bloom filter is rewound to its start before it is queued; (indexer) per-page index arrays stay aligned with pages (C05.indexer); (own) footer structs do not share storage with live writer state (C17.own); (reset) dictionaries, indexers and column writers start every row group from a clean state (C17.reset instances). (offsets, cont.) the offset added to the page locations of a chunk is the very measurement stored as DataPageOffset, in writeRowGroup and the helpers it calls. (twins) where a function records a struct either by appending a composite literal or by refilling a recycled element of the same list, every numeric field set on both sides from a value computed before the branches part is set from the same value. (deferred, cont.) between the rewind of a deferred bloom filter buffer and the moment it is queued nothing else is called with the buffer (a rewind before the buffer is filled leaves it at its end); every function of the package that queues such a buffer is examined. (queuedrelease) a function that appends to a slice field a struct holding a buffer together with the closure that returns it to its pool neither defers that release where the queueing can follow nor performs it on a path after the append (paths that pass the definition of the buffer again concern another buffer).",
+		Decided:     "Structural necessary conditions: (sink) the destination io.Writer is written only inside the three methods of the offset-tracking wrapper, each of which adds the byte count to the offset on every path, and the bufio layer is only Reset/Flushed elsewhere, so every byte that reaches the sink is counted in the offsets the footer records; (offsets) the offset and length fields of column chunks, row groups and page locations derive from that running offset (or differences of it), and the page locations of a chunk are re-based by the data page offset in both the encoded and the copied branch; (header) the fields of each page header come from the matching accessor of the page or buffer (NumValues, NumNulls, NumRows, Encoding(), len(definitions), len(repetitions)), the uncompressed size is taken after the v1 levels are prepended and before compression, the compressed size and CRC after it, all before the header is encoded; (deferred) a buffer that holds a deferred bloom filter is rewound to its start before it is queued; (indexer) per-page index arrays stay aligned with pages (C05.indexer); (own) footer structs do not share storage with live writer state (C17.own); (reset) dictionaries, indexers and column writers start every row group from a clean state (C17.reset instances). (offsets, cont.) the offset added to the page locations of a chunk is the very measurement stored as DataPageOffset, in writeRowGroup and the helpers it calls. (twins) where a function records a struct either by appending a composite literal or by refilling a recycled element of the same list, every numeric field set on both sides from a value computed before the branches part is set from the same value. (deferred, cont.) between the rewind of a deferred bloom filter buffer and the moment it is queued nothing else is called with the buffer (a rewind before the buffer is filled leaves it at its end); every function of the package that queues such a buffer is examined. (queuedrelease) a function that appends to a slice field a struct holding a buffer together with the closure that returns it to its pool neither defers that release where the queueing can follow nor performs it on a path after the append (paths that pass the definition of the buffer again concern another buffer). (onemeasure) in writeRowGroup and its helpers one reading of the file offset is not recorded under two different offset fields of the footer (DictionaryPageOffset, DataPageOffset, BloomFilterOffset, FileOffset) with a call between the two stores that is handed the offset-tracking writer or reaches such a call: the second object starts after what was just written.",
 		NotDecided:  "agreement with an independent decoder; thrift encoding; sizes and counts as numbers; row-boundary alignment of pages written through the column-oriented re-encode path (see C11.rows).",
 		Assumptions: []string{"the footer records what the struct fields hold; the thrift encoder serialises them faithfully"},
 		Run:         runC02,
@@ -26,6 +26,7 @@ func runC02(c *Ctx) {
 	runTwinBranchRule(c, "C02.twins", 4)
 	c02Sink(c)
 	c02Offsets(c)
+	c02OneMeasure(c, "C02.onemeasure")
 	c02Header(c, "C02.header")
 	c02Deferred(c)
 	runQueuedReleaseRule(c, "C02.queuedrelease", 1)
